@@ -282,20 +282,24 @@ static void write_varint(carquet_buffer_t* buf, uint32_t value) {
 }
 
 static void flush_rle(carquet_rle_encoder_t* enc) {
-    if (enc->repeat_count == 0) return;
+    /* The run header is a 32-bit varint holding count << 1: runs longer than
+     * INT32_MAX are written as several runs of the same value */
+    while (enc->repeat_count > 0) {
+        int64_t run = enc->repeat_count > INT32_MAX ? INT32_MAX : enc->repeat_count;
 
-    /* Write RLE header: (count << 1) | 0 */
-    write_varint(enc->buffer, (uint32_t)(enc->repeat_count << 1));
+        /* Write RLE header: (count << 1) | 0 */
+        write_varint(enc->buffer, (uint32_t)(run << 1));
 
-    /* Write value (ceil(bit_width/8) bytes) */
-    int value_bytes = (enc->bit_width + 7) / 8;
-    uint8_t bytes[4];
-    for (int i = 0; i < value_bytes; i++) {
-        bytes[i] = (uint8_t)(enc->prev_value >> (i * 8));
+        /* Write value (ceil(bit_width/8) bytes) */
+        int value_bytes = (enc->bit_width + 7) / 8;
+        uint8_t bytes[4];
+        for (int i = 0; i < value_bytes; i++) {
+            bytes[i] = (uint8_t)(enc->prev_value >> (i * 8));
+        }
+        carquet_buffer_append(enc->buffer, bytes, (size_t)value_bytes);
+
+        enc->repeat_count -= run;
     }
-    carquet_buffer_append(enc->buffer, bytes, (size_t)value_bytes);
-
-    enc->repeat_count = 0;
 }
 
 static void flush_bitpack(carquet_rle_encoder_t* enc) {
